@@ -64,11 +64,16 @@ def op_cli(job):
             for old in os.listdir(os.path.join(d, out)):
                 os.remove(os.path.join(d, out, old))
         cmd = [sys.executable, "-m", "bitproto._main"] + run["args"]
-        try:
-            p = subprocess.run(cmd, cwd=d, capture_output=True, text=True, timeout=job.get("timeout", 60))
-            rc, so, se = p.returncode, p.stdout, p.stderr
-        except subprocess.TimeoutExpired:
-            rc, so, se = 124, "", "TIMEOUT"
+        timed_out = False
+        for attempt, tmo in enumerate((job.get("timeout", 120), 600)):
+            try:
+                p = subprocess.run(cmd, cwd=d, capture_output=True, text=True, timeout=tmo)
+                rc, so, se = p.returncode, p.stdout, p.stderr
+                timed_out = False
+                break
+            except subprocess.TimeoutExpired:       # a loaded machine: retry once with a long limit
+                rc, so, se = 124, "", "TIMEOUT"
+                timed_out = True
         diags, other = parse_diags(se, docs)
         files = {}
         if out:
@@ -76,7 +81,8 @@ def op_cli(job):
                 with open(os.path.join(d, out, fn)) as f:
                     files[fn] = f.read()
         res["runs"].append({"rc": rc, "stderr": se[-4000:], "stdout": so[-500:], "diags": diags, "other": other,
-                            "files": files, "traceback": "Traceback (most recent call last)" in se})
+                            "files": files, "traceback": "Traceback (most recent call last)" in se,
+                            "timeout": timed_out})
     return res
 
 
